@@ -1,6 +1,6 @@
 """Bounded native stand-in for C19 (NOT counted as proof): the real SSHStreamSession reader over EVERY chunking of
 every short stream, for the separator kinds that the symbolic contracts delegate to `re` (list of separators,
-compiled pattern with max_separator_len) and for the str instantiation (an encoding is set), compared with an
+compiled pattern with and without max_separator_len) and for the str instantiation (an encoding is set), compared with an
 oracle on the un-chunked stream: readuntil returns the shortest prefix of the unread stream that ends in a separator
 match; read(n) returns 1..n units unless EOF; readexactly(n) exactly n; everything is delivered once, in order.
 usage: c19_native.py <seed> <maxlen>   -> JSON {cases, violations}"""
@@ -136,7 +136,11 @@ def main():
                         for label, sepobj, kw in (
                                 ('list', tuple(sl), {}),
                                 ('pattern', re.compile(conv(b'|').join(re.escape(x) for x in sl)),
-                                 {'max_separator_len': max(len(x) for x in sl)})):
+                                 {'max_separator_len': max(len(x) for x in sl)}),
+                                # compiled pattern WITHOUT max_separator_len: the separator length is unknown, so
+                                # every search must restart from the beginning of the not yet returned data
+                                ('pattern-without-max-len', re.compile(conv(b'|').join(re.escape(x) for x in sl)),
+                                 {})):
                             cases += 1
                             got, why = guarded(loop, run_until(chunks, sepobj, kw, enc))
                             if why is not None:
